@@ -1292,6 +1292,13 @@ def C10(ck):
                 reqs.append({'transform': 'TEXT', 'entropy': e, 'block': block, 'jobs': 1, 'ck': 32, 'hint': -1, 'shape': 'wordlist',
                              'seed': ck.seed * 100000 + i, 'size': size, 'out': os.path.join(base, 'l%05d.knz' % i)})
                 i += 1
+        # (b6) executables of every recognised kind (x86 and AArch64 images with the code section at every alignment) through the EXE
+        # transform and chains / codecs behind it: the meaning of the words it stores is part of the format
+        for shape6 in ('elfarm:0', 'elfarm:4', 'elfarm:1', 'exe', 'x86'):
+            for t6, e6 in (('EXE', 'NONE'), ('EXE+RLT', 'ANS0'), ('EXE+TEXT+UTF', 'HUFFMAN')):
+                reqs.append({'transform': t6, 'entropy': e6, 'block': 1 << 20, 'jobs': 1, 'ck': rnd.choice([0, 32, 64]), 'hint': -1, 'shape': shape6,
+                             'seed': ck.seed * 100000 + i, 'size': 160000 + rnd.randrange(5000), 'out': os.path.join(base, 'l%05d.knz' % i)})
+                i += 1
         # the front ends take their work on the command line: batches small enough for the argument size limit
         enc = []
         for lo in range(0, len(reqs), 120):
